@@ -147,7 +147,10 @@ Qed.
 Definition step1 (f : nat) : M unit :=
   pre_run fo0 1000 ;;
   let* t := get_token pr0 in
-  match t with BEnd => fail EOther None | _ => tok_act fo0 pr0 1000 f t end.
+  match t with
+  | BEnd => fail EOther None
+  | _ => fun s => if enum_tok s t then RErr EOther None s else tok_act fo0 pr0 1000 f t s
+  end.
 
 Lemma step1_tstep f s s' : step1 f s = ROk tt s' -> tstep fo0 pr0 1000 f s s'.
 Proof.
@@ -155,7 +158,8 @@ Proof.
   destruct (pre_run fo0 1000 s) as [[] s1|? ? ?| |] eqn:E1; try discriminate.
   destruct (get_token pr0 s1) as [t s2|? ? ?| |] eqn:E2; try discriminate.
   exists s1, t, s2. split; [exact E1|]. split; [exact E2|].
-  destruct t; try discriminate E; (split; [discriminate|exact E]).
+  destruct t; try discriminate E;
+    (destruct (enum_tok s2 _) eqn:En; [discriminate E|]; split; [discriminate|split; [reflexivity|exact E]]).
 Qed.
 
 Definition nxt (s : state) : state := st_of (step1 10 s).
